@@ -278,6 +278,37 @@ Proof.
     destruct (helper_exec_data (snd (first_resp rs0))); cbn; intros H; try discriminate. injection H as <-. reflexivity.
 Qed.
 
+(* a leaf program with a well-formed response, run as the only message of a call: if its body ran, the call succeeds *)
+Lemma leaf_prog_ok e entry c sender funds rep cid rok p s :
+  prog_leaf p = true -> prog_malformed p = false ->
+  run_prog e entry c sender funds rep cid rok p s = ([], Err) \/
+  exists tr0 r, run_prog e entry c sender funds rep cid rok p s = (tr0, Ok r).
+Proof.
+  destruct p as [node acts out]. intros Hl Hm.
+  destruct (run_prog_cases e entry c sender funds rep cid rok node acts out s)
+    as [[_ E]|[(co & _ & Hf & E)|(co & attrs & events & data & sbs & _ & -> & Hv & E)]].
+  - left. exact E.
+  - exfalso. destruct out as [|a0 e0 d0 sb0]; [discriminate Hl|]. cbn in Hf. cbn in Hm. congruence.
+  - right. rewrite E. destruct sbs; [|discriminate Hl]. cbn. eexists. eexists. reflexivity.
+Qed.
+Lemma leaf_exec_ok e sd c p f s : prog_leaf p = true -> prog_malformed p = false ->
+  find_call (node_of p) (top_trace (run_top e (TExec sd (MExec c p f)) s)) <> None ->
+  is_ok (top_outcome (run_top e (TExec sd (MExec c p f)) s)) = true.
+Proof.
+  intros Hl Hm. unfold top_trace, top_outcome. cbn [run_top]. rewrite run_msgs_cons.
+  destruct (run_msg_cases e sd (MExec c p f) s p eq_refl) as [[E1 E2]|(c0 & s1 & _ & _ & _ & _ & E)].
+  - destruct (run_msg e sd (MExec c p f) s) as [t0 [[r0 s0]| |]]; cbn in *; try discriminate; subst t0; cbn; intros H; contradiction.
+  - rewrite E. cbn [msg_entry msg_sender msg_funds msg_cid].
+    destruct (leaf_prog_ok e EExec c0 (Some sd) f None 0 true p s1 Hl Hm) as [->|(t0 & [[ev d] s2] & ->)]; cbn; [intros H; contradiction|reflexivity].
+Qed.
+Lemma leaf_sudo_ok e c p s : prog_leaf p = true -> prog_malformed p = false ->
+  find_call (node_of p) (top_trace (run_top e (TWasmSudo c p) s)) <> None ->
+  is_ok (top_outcome (run_top e (TWasmSudo c p) s)) = true.
+Proof.
+  intros Hl Hm. unfold top_trace, top_outcome. cbn [run_top].
+  destruct (leaf_prog_ok e ESudo c None [] None 0 true p s Hl Hm) as [->|(t0 & [[ev d] s2] & ->)]; cbn; [intros H; contradiction|reflexivity].
+Qed.
+
 Section Step.
 Variable ce : case_env.
 Variable st : step.
@@ -338,6 +369,13 @@ Proof.
     specialize (Ht c eq_refl). subst c0. injection E1 as -> _.
     destruct (run_prog_ok_events _ _ _ _ _ _ _ _ _ _ _ _ _ Er) as (_ & ev_s & -> & _).
     cbn [msg_entry msg_cid]. rewrite is_prefix_ev_app. apply orb_true_r.
+  - (* 9 *) destruct op as [sd ms|sd m|c p|to amt|sd m|sd m] eqn:Eop; try reflexivity.
+    + destruct m; try reflexivity. destruct (prog_leaf p) eqn:El; [|reflexivity]. destruct (prog_malformed p) eqn:Em; [reflexivity|].
+      cbn [negb orb]. pose proof (leaf_exec_ok e sd c p funds s El Em) as H. fold tr o in H. change (node_of p) with (match p with Prog n _ _ => n end) in H.
+      destruct (find_call (match p with Prog n _ _ => n end) tr); [apply H; discriminate|reflexivity].
+    + destruct (prog_leaf p) eqn:El; [|reflexivity]. destruct (prog_malformed p) eqn:Em; [reflexivity|].
+      cbn [negb orb]. pose proof (leaf_sudo_ok e c p s El Em) as H. fold tr o in H. change (node_of p) with (match p with Prog n _ _ => n end) in H.
+      destruct (find_call (match p with Prog n _ _ => n end) tr); [apply H; discriminate|reflexivity].
 Qed.
 
 (* ---------- C03 ---------- *)
